@@ -1,7 +1,7 @@
 #!/bin/bash
 # usage: evalmut.sh <ID> <k> [checks...]   - confirm a sub-agent's change and run checks against it
 ID=$1; K=$2; shift 2
-D=/tmp/mut/$ID/out/$K
+D=${MUTROOT:-/tmp/mut}/$ID/out/$K
 echo "== $ID/$K: $(head -c 300 $D/notes.md | head -3 | tr '\n' ' ')"
 echo "-- demo on the unchanged tree (expect 0):"
 ( cd /tmp && PYTHONPATH=/repo timeout 300 /venv/bin/python $D/demo.py >/tmp/evalmut.$$.out 2>&1; echo "   exit $?"; tail -2 /tmp/evalmut.$$.out | sed 's/^/   /' )
